@@ -246,8 +246,27 @@ package klog
 //@ requires 0 <= dn(d.year, d.month, d.day) + dayIncrement && dn(d.year, d.month, d.day) + dayIncrement <= 3652424
 //@ ensures typeis(result, *date) && ddn(result) == dn(d.year, d.month, d.day) + dayIncrement && result.(*date).format == d.format
 
+//@ func (*date).Year
+//@ ensures result == d.year
+//@ func (*date).Month
+//@ ensures result == d.month
+//@ func (*date).Day
+//@ ensures result == d.day
+
+// Quarter: months 1-3 -> 1, ..., 10-12 -> 4.
+//@ func (*date).Quarter
+//@ ensures result == ediv(d.month + 2, 3)
+
+// ISO 8601 week numbering of day number n: the week (Monday to Sunday) belongs to the year of its Thursday.
+//@ spec isothu(n int) int = n - emod(n + 5, 7) + 3
+//@ spec isoyear(n int) int = yearof(isothu(n))
+//@ spec isoweek(n int) int = ediv(isothu(n) - dby(yearof(isothu(n))), 7) + 1
+
+//@ func (*date).WeekNumber
+//@ ensures result0 == isoyear(dn(d.year, d.month, d.day)) && result1 == isoweek(dn(d.year, d.month, d.day))
+
 //@ func (*date).Weekday
-//@ ensures 1 <= result && result <= 7 && emod(result, 7) == emod(dn(d.year, d.month, d.day) + 6, 7)
+//@ ensures result == emod(dn(d.year, d.month, d.day) + 5, 7) + 1
 
 // ---------------------------------------------------------------------------------------------
 // Entries and records
